@@ -71,7 +71,10 @@ Known(f, t) == f.tracks[TrackIndex(f, t)].known
 Count(f, t) == Len(f.tracks[TrackIndex(f, t)].samples)
 Sample(f, t, k) == f.tracks[TrackIndex(f, t)].samples[k]
 Flags(f, t) == f.tracks[TrackIndex(f, t)].flags
-InFile(f, off, size) == size = 0 \/ SegOf(f.img, off, size) # 0
+\* inside the file / inside a part of the file whose bytes were logged (a sparse file is longer than
+\* the bytes given: the rest reads as zero and is not compared)
+InFile(f, off, size) == size = 0 \/ (Leq(f.img.start, off) /\ Leq(Add(off, FromInt(size)), f.img.len))
+Logged(f, off, size) == size = 0 \/ SegOf(f.img, off, size) # 0
 BytesAt(f, off, size) == Win(f.img, off, size)
 Metadata(f) == f.meta
 \* movie-level accessors: the movie header's timescale; its duration in milliseconds (0 for timescale 0)
